@@ -17,6 +17,46 @@
 #include <mach/mach.h>
 #endif // __APPLE__
 
+#ifdef KPU_KENLM_VERIF
+/* Verification scheduling points.  KPU_KENLM_VERIF_POINT(id, obj) calls through
+ * a function pointer that is null unless a test harness installs a scheduler,
+ * so it is a no-op in normal use.  Without KPU_KENLM_VERIF it expands to nothing.
+ */
+namespace util { namespace verif {
+enum PointId {
+  // PCQueue::Produce
+  kProduceBeforeWait = 1, kProduceAfterWait = 2,
+  kProduceBeforeLock = 3, kProduceAfterLock = 4,
+  kProduceBeforeUnlock = 5, kProduceAfterUnlock = 6,
+  kProduceBeforePost = 7, kProduceAfterPost = 8,
+  // PCQueue::Consume
+  kConsumeBeforeWait = 11, kConsumeAfterWait = 12,
+  kConsumeBeforeLock = 13, kConsumeAfterLock = 14,
+  kConsumeBeforeUnlock = 15, kConsumeAfterUnlock = 16,
+  kConsumeBeforePost = 17, kConsumeAfterPost = 18,
+  // exception paths (operator= threw): the semaphore is given back
+  kProduceUndoBeforePost = 21, kProduceUndoAfterPost = 22,
+  kConsumeUndoBeforePost = 23, kConsumeUndoAfterPost = 24,
+  // threads (util/stream/chain.hh, util/thread_pool.hh); obj identifies the thread owner object
+  kThreadSpawned = 31, kThreadStart = 32, kThreadEnd = 33,
+  kThreadBeforeJoin = 34, kThreadAfterJoin = 35
+};
+typedef void (*PointFunction)(int id, const void *obj);
+// Function-local static: header-only, one instance per program, null by default.
+inline PointFunction &PointHook() {
+  static PointFunction hook = 0;
+  return hook;
+}
+inline void Point(int id, const void *obj) {
+  PointFunction hook = PointHook();
+  if (hook) hook(id, obj);
+}
+} } // namespaces
+#define KPU_KENLM_VERIF_POINT(id, obj) ::util::verif::Point((id), (obj))
+#elif !defined(KPU_KENLM_VERIF_POINT)
+#define KPU_KENLM_VERIF_POINT(id, obj)
+#endif // KPU_KENLM_VERIF
+
 namespace util {
 
 /* OS X Maverick and Boost interprocess were doing "Function not implemented."
@@ -90,36 +130,56 @@ template <class T> class PCQueue : boost::noncopyable {
 
   // Add a value to the queue.
   void Produce(const T &val) {
+    KPU_KENLM_VERIF_POINT(::util::verif::kProduceBeforeWait, this);
     WaitSemaphore(empty_);
+    KPU_KENLM_VERIF_POINT(::util::verif::kProduceAfterWait, this);
     {
+      KPU_KENLM_VERIF_POINT(::util::verif::kProduceBeforeLock, this);
       boost::unique_lock<boost::mutex> produce_lock(produce_at_mutex_);
+      KPU_KENLM_VERIF_POINT(::util::verif::kProduceAfterLock, this);
       try {
         *produce_at_ = val;
       }
       catch (...) {
+        KPU_KENLM_VERIF_POINT(::util::verif::kProduceUndoBeforePost, this);
         empty_.post();
+        KPU_KENLM_VERIF_POINT(::util::verif::kProduceUndoAfterPost, this);
         throw;
       }
       if (++produce_at_ == end_) produce_at_ = storage_.get();
+      KPU_KENLM_VERIF_POINT(::util::verif::kProduceBeforeUnlock, this);
     }
+    KPU_KENLM_VERIF_POINT(::util::verif::kProduceAfterUnlock, this);
+    KPU_KENLM_VERIF_POINT(::util::verif::kProduceBeforePost, this);
     used_.post();
+    KPU_KENLM_VERIF_POINT(::util::verif::kProduceAfterPost, this);
   }
 
   // Consume a value, assigning it to out.
   T& Consume(T &out) {
+    KPU_KENLM_VERIF_POINT(::util::verif::kConsumeBeforeWait, this);
     WaitSemaphore(used_);
+    KPU_KENLM_VERIF_POINT(::util::verif::kConsumeAfterWait, this);
     {
+      KPU_KENLM_VERIF_POINT(::util::verif::kConsumeBeforeLock, this);
       boost::unique_lock<boost::mutex> consume_lock(consume_at_mutex_);
+      KPU_KENLM_VERIF_POINT(::util::verif::kConsumeAfterLock, this);
       try {
         out = *consume_at_;
       }
       catch (...) {
+        KPU_KENLM_VERIF_POINT(::util::verif::kConsumeUndoBeforePost, this);
         used_.post();
+        KPU_KENLM_VERIF_POINT(::util::verif::kConsumeUndoAfterPost, this);
         throw;
       }
       if (++consume_at_ == end_) consume_at_ = storage_.get();
+      KPU_KENLM_VERIF_POINT(::util::verif::kConsumeBeforeUnlock, this);
     }
+    KPU_KENLM_VERIF_POINT(::util::verif::kConsumeAfterUnlock, this);
+    KPU_KENLM_VERIF_POINT(::util::verif::kConsumeBeforePost, this);
     empty_.post();
+    KPU_KENLM_VERIF_POINT(::util::verif::kConsumeAfterPost, this);
     return out;
   }
 
